@@ -22,37 +22,6 @@ V1 = 'djinterop::engine::v1::'
 V2 = 'djinterop::engine::v2::'
 
 
-def _site_maps(prog, cg, eff, qn):
-    fs = [f for f in prog.by_name(qn) if f.body is not None and not f.is_pattern]
-    if not fs:
-        raise AnalysisBroken('anchor function %s not found' % qn)
-    return fs[0], rowmap.site_maps(prog, cg, eff, fs[0])
-
-
-_CUR = [None]     # function whose statements are being described (for resolving locals)
-
-
-def _srckey(src, depth=0):
-    if src is None:
-        return None
-    # a local initialised once (`const auto self = id();`) stands for its initialiser
-    if src.root and src.root[0] == 'local' and not src.path and not src.via and _CUR[0] is not None and depth < 3:
-        f = _CUR[0]
-        decl = [x for x in walk(f.body) if x.get('kind') == 'VarDecl' and x.get('id') == src.root[2]]
-        assigned = any(x.get('kind') == 'BinaryOperator' and x.get('opcode') == '=' and
-                       (strip(children(x)[0]).get('referencedDecl') or {}).get('id') == src.root[2]
-                       for x in walk(f.body))
-        if len(decl) == 1 and not assigned:
-            init = [y for y in children(decl[0]) if not y['kind'].endswith('Attr') and not y['kind'].endswith('Comment')]
-            if init:
-                return _srckey(rowmap.describe(init[-1]), depth + 1)
-    if src.root and src.root[0] == 'call':
-        return src.root[1]
-    if src.root:
-        return (src.root[1] or '') + (('.' + src.path) if src.path else '') + ('<-' + '<-'.join(src.via) if src.via else '')
-    return None
-
-
 def _path_chain(prog, cg, eff, chk, W1, entry, rewriters, label):
     """Crate.path(child) = Crate.path(parent) + title(child) + ';'.  The subtree rewriter receives the
     parent's path as an argument; every call to it - from the operation and from itself - must
@@ -67,7 +36,9 @@ def _path_chain(prog, cg, eff, chk, W1, entry, rewriters, label):
         return
     seen = set()
     for (seq, callee, args, node, caller) in calls:
-        own = [w for w in pw if w.func is caller and w.seq < seq]
+        # the path most recently stored before the call - by the calling function itself or by a helper it
+        # stores the path through; not the path an enclosing caller stored earlier
+        own = [w for w in pw if w.seq < seq][-1:]
         key = (caller.qualname, locstr(node))
         if key in seen:
             continue
@@ -90,7 +61,7 @@ def _path_chain(prog, cg, eff, chk, W1, entry, rewriters, label):
                           'immediate-parent relation: a crate two levels below gets "<this path><its title>;" and '
                           'loses the levels in between, so Crate.path disagrees with CrateParentList / CrateHierarchy'
                           % (inst, ', '.join(sorted(closure))))
-        elif own and any(a is w.value for a in args for w in own):
+        elif own and any(a is w.value or (a == w.value and a[0] != 'unk') for a in args for w in own):
             chk.ok(W1, inst, locstr(node))
         else:
             chk.violation(W1, '%s|%s->%s path argument' % (label, _short(caller.qualname), _short(callee)), locstr(node),
@@ -102,9 +73,20 @@ def _path_chain(prog, cg, eff, chk, W1, entry, rewriters, label):
 
 def padded_fields(prog, chk, W12):
     n = 0
-    for f in sorted(prog.functions.values(), key=lambda x: (x.file or '', x.line)):
-        if f.body is None or f.is_pattern or 'v1/engine_track_impl' not in (f.file or ''):
+    # the 1.x track writers, and the integer -> string formatting helpers they reach wherever those are defined
+    # (the MM:SS formatting shared by two writers may live in a utility header)
+    from .. import callgraph as _cgm
+    cg = _cgm.get(prog)
+    own = [f for f in prog.functions.values()
+           if f.body is not None and not f.is_pattern and 'v1/engine_track_impl' in (f.file or '')]
+    cands = {f.key: f for f in own}
+    for key, (g, _p, _n) in cg.reachable(own, stop=lambda x: not prog.in_repo(x.file)).items():
+        if g.body is None or g.is_pattern or not prog.in_repo(g.file) or key in cands:
             continue
+        if 'string' in (g.ret or '') and g.params and \
+                all(re.search(r'\b(int|long|int64_t|int32_t|unsigned|size_t)\b', p.get('type') or '') for p in g.params):
+            cands[key] = g
+    for f in sorted(cands.values(), key=lambda x: (x.file or '', x.line)):
         # the same string written with a printf-style format: every integer conversion carries the 02 width
         for x in walk(f.body):
             if x.get('kind') == 'StringLiteral' and ':' in (x.get('value') or '') and '%' in (x.get('value') or ''):
@@ -178,6 +160,73 @@ def padded_fields(prog, chk, W12):
         raise AnalysisBroken('W12: no MM:SS stream with two numbers found (%d)' % n)
 
 
+class _Stmt:
+    """One executed write statement of an operation, callees inlined: the column each bound value is assigned
+    to / compared with / selected beside, as value-flow terms."""
+    __slots__ = ('kind', 'table', 'cols', 'wheres', 'sel', 'loc', 'seq', 'func')
+
+    def __init__(self, kind, table, loc, seq, func):
+        self.kind, self.table, self.loc, self.seq, self.func = kind, table, loc, seq, func
+        self.cols, self.wheres, self.sel = {}, {}, []
+
+    def roles(self):
+        return [(c, vf.shape(v)[:40], 'value') for c, v in sorted(self.cols.items())] + \
+               [(c, vf.shape(v)[:40], 'where') for c, v in sorted(self.wheres.items())] + \
+               [(None, vf.shape(v)[:40], 'select') for v in self.sel]
+
+
+def _val(t):
+    """The value a term denotes: the result of an inlined repository call stands for the call."""
+    while t is not None and t[0] in ('call', 'callm') and len(t) > 3 and t[3] is not None:
+        t = t[3]
+    return t
+
+
+def _self(t):
+    return _val(t) == ('id',)
+
+
+def _same(a, b):
+    a, b = _val(a), _val(b)
+    return a is not None and a == b and a[0] != 'unk'
+
+
+def _statements(prog, cg, eff, f):
+    """Write statements the operation executes, in order, wherever they are written: in the function itself, in
+    a helper it shares with a sibling operation (arguments substituted for the helper's parameters), through a
+    named SQL constant; locals and aliases are resolved by the value flow."""
+    ip = vf.Interp(prog, cg, eff)
+    ip.run(f)
+    out, cur = [], {}
+    for w in ip.writes:
+        key = (w.seq, w.loc)
+        st = cur.get(key)
+        if st is None:
+            kind = 'insert' if w.kind.startswith('insert') else w.kind
+            st = cur[key] = _Stmt(kind, (w.table or '').lower(), w.loc, w.seq, w.func)
+            out.append(st)
+        if w.kind == 'insert-select':
+            site = [s_ for s_ in eff.sites(w.func) if locstr(s_.node) == w.loc]
+            parsed = site[0].stored_in if site else None
+            binds = w.value[2] if w.value and w.value[0] == 'op' else ()
+            if parsed is None or len(parsed.params) != len(binds):
+                raise AnalysisBroken('INSERT .. SELECT at %s: placeholders and bound values could not be paired' % w.loc)
+            for p_, b in zip(parsed.params, binds):
+                c = (p_.column or '').lower()
+                if p_.role in ('value', 'set'):
+                    st.cols[c] = b
+                elif p_.role == 'where':
+                    st.wheres[c] = b
+                elif p_.role == 'select':
+                    st.sel.append(b)
+            continue
+        if w.kind in ('insert', 'update'):
+            st.cols[(w.column or '').lower()] = w.value
+        for c, v in (w.where or {}).items():
+            st.wheres[c.lower()] = v
+    return ip, out
+
+
 def forest_encodings(prog, cg, eff, chk, W1, only=None, paths=True):
     # ---- W1 ------------------------------------------------------------------------------
     ops = [
@@ -189,12 +238,15 @@ def forest_encodings(prog, cg, eff, chk, W1, only=None, paths=True):
     for qn, op in ops:
         if only is not None and op not in only:
             continue
-        f, sms = _site_maps(prog, cg, eff, qn)
-        _CUR[0] = f
+        fs = [g for g in prog.by_name(qn) if g.body is not None and not g.is_pattern]
+        if not fs:
+            raise AnalysisBroken('anchor function %s not found' % qn)
+        f = fs[0]
         chk.analysed(f)
+        _ip, stmts = _statements(prog, cg, eff, f)
         by = {}
-        for sm in sms:
-            by.setdefault(((sm.stmt.kind), (sm.stmt.table or '').lower()), []).append(sm)
+        for sm in stmts:
+            by.setdefault((sm.kind, sm.table), []).append(sm)
 
         def need(kind, table, what, pred=None):
             cands = by.get((kind, table), [])
@@ -206,22 +258,21 @@ def forest_encodings(prog, cg, eff, chk, W1, only=None, paths=True):
                 chk.violation(W1, '%s|%s' % (_short(qn), what[:60]), cands[0].loc if cands else locstr(f.node),
                               '%s: not found%s - the redundant encodings of the crate forest no longer '
                               'describe the same forest' % (inst, ' (a %s on %s exists but with other roles: %s)' % (
-                                  kind, table, [(c, _srckey(s), r) for c, s, r, _ in cands[0].col_src]) if cands else ''))
+                                  kind, table, cands[0].roles()) if cands else ''))
 
         def cols(sm):
-            return {(c or '').lower(): _srckey(s) for c, s, r, _ in sm.col_src if r in ('value', 'set')}
+            return sm.cols
 
         def wheres(sm):
-            return {(c or '').lower(): _srckey(s) for c, s, r, _ in sm.col_src if r == 'where'}
+            return sm.wheres
         if op in ('root', 'sub'):
             need('insert', 'crate', 'INSERT into Crate with title and path',
                  lambda sm: {'title', 'path'} <= set(cols(sm)))
-            parent_key = 'id()' if op == 'sub' else None
             need('insert', 'crateparentlist', 'INSERT into CrateParentList (origin = new crate, parent = %s)' % (
                 'this crate' if op == 'sub' else 'the new crate itself'),
                 lambda sm: 'crateoriginid' in cols(sm) and 'crateparentid' in cols(sm) and (
-                    (cols(sm)['crateparentid'] == 'id()' and cols(sm)['crateoriginid'] != 'id()') if op == 'sub'
-                    else cols(sm)['crateparentid'] == cols(sm)['crateoriginid']))
+                    (_self(cols(sm)['crateparentid']) and not _self(cols(sm)['crateoriginid'])) if op == 'sub'
+                    else _same(cols(sm)['crateparentid'], cols(sm)['crateoriginid'])))
         if op in ('sub', 'move'):
             def hier_ok(sm, op=op):
                 c, w = cols(sm), wheres(sm)
@@ -231,19 +282,19 @@ def forest_encodings(prog, cg, eff, chk, W1, only=None, paths=True):
                 par = w.get('crateidchild')
                 if par is None:
                     return False           # ancestors must be looked up by crateIdChild = parent
-                sel = [_srckey(s) for _, s, r, _ in sm.col_src if r == 'select']
+                sel_ok = len(sm.sel) == 2 and _same(sm.sel[0], par) and _same(sm.sel[1], new)
                 if op == 'sub':
-                    return par == 'id()' and new != 'id()' and sel == [par, new]
-                return new == 'id()' and par != 'id()' and sel == [par, new]
+                    return _self(par) and not _self(new) and sel_ok
+                return _self(new) and not _self(par) and sel_ok
             need('insert', 'cratehierarchy', 'INSERT into CrateHierarchy of (ancestors of the parent, found by '
                  'crateIdChild = parent) x crate, plus (parent, crate)', hier_ok)
         if op == 'move':
             need('delete', 'crateparentlist', 'DELETE of the old CrateParentList row (crateOriginId = id())',
-                 lambda sm: wheres(sm).get('crateoriginid') == 'id()')
+                 lambda sm: _self(wheres(sm).get('crateoriginid')))
             need('insert', 'crateparentlist', 'INSERT of the new CrateParentList row (origin = id())',
-                 lambda sm: cols(sm).get('crateoriginid') == 'id()')
+                 lambda sm: _self(cols(sm).get('crateoriginid')))
             need('delete', 'cratehierarchy', 'DELETE of the old CrateHierarchy rows (crateIdChild = id())',
-                 lambda sm: wheres(sm).get('crateidchild') == 'id()')
+                 lambda sm: _self(wheres(sm).get('crateidchild')))
         if paths and op in ('rename', 'move'):
             # Crate.path of the crate itself and of its subtree
             upd = by.get(('update', 'crate'), [])
@@ -260,7 +311,7 @@ def forest_encodings(prog, cg, eff, chk, W1, only=None, paths=True):
                 walks = any((e.name or '').endswith('::children') for e in cg.edges(g))
                 if writes_path and walks:
                     sub.append(k)
-            own = [sm for sm in upd if 'path' in cols(sm) and wheres(sm).get('id') == 'id()']
+            own = [sm for sm in upd if 'path' in cols(sm) and _self(wheres(sm).get('id'))]
             inst = '%s: Crate.path rewritten for the crate (UPDATE .. WHERE id = id()) and for its subtree (a reached function that updates Crate.path along children())' % _short(qn)
             if (own or op == 'move' and sub) and sub:
                 chk.ok(W1, inst, (own[0].loc if own else locstr(f.node)))
@@ -328,6 +379,43 @@ def _suffix_helpers(prog, cg, chk, W2, roots):
         chk.fail_broken('W2: the file-name / extension helpers were not found among the callees of the path writers')
 
 
+def _helper_statements(prog, cg, eff, cls, trace):
+    """Statements a creator executes through helpers that are not virtual members of the creator object - a
+    static member or free function that sibling creators share (the rows every new database starts out with,
+    factored out of the per-version create() bodies).  The creation trace follows this-> calls (they depend on
+    the dynamic class); any other repository callee of the functions on the trace is resolved statically, so
+    its statements, and those of its callees, belong to the creator as well."""
+    from .. import schemas
+    funcs = {}
+    f0 = schemas.final_overrider(prog, cls, 'create')
+    if f0 is not None:
+        funcs[f0.key] = f0
+    for e in trace:
+        funcs[e.func.key] = e.func
+        for cf, _node in e.frames:
+            funcs[cf.key] = cf
+    out, seen = [], set(funcs)
+    for g in list(funcs.values()):
+        for edge in cg.edges(g):
+            n = edge.node
+            if n.get('kind') == 'CXXMemberCallExpr':
+                callee = strip(children(n)[0])
+                recv = strip(children(callee)[0]) if callee.get('kind') == 'MemberExpr' and children(callee) else None
+                if recv is not None and recv.get('kind') == 'CXXThisExpr':
+                    continue        # followed by the trace, with the dynamic class
+            for t in edge.targets:
+                if t.body is None or t.is_pattern or not prog.in_repo(t.file) or t.key in seen:
+                    continue
+                for key, (h, _p, _n) in cg.reachable([t], stop=lambda x: not prog.in_repo(x.file)).items():
+                    if key in seen or h.body is None or h.is_pattern:
+                        continue
+                    seen.add(key)
+                    for s_ in eff.sites(h):
+                        if s_.stored_in is not None:
+                            out.append(s_.stored_in)
+    return out
+
+
 def _default_rows(prog, cg, eff, chk, W9):
     """A constant the track writers store in a foreign-key column (the "no album art" id) names a row
     of the referenced table; every supported creator of the generation must insert that row, or
@@ -366,11 +454,11 @@ def _default_rows(prog, cg, eff, chk, W9):
                     for a_, b_ in zip(cols, rcols or ['id']):
                         fks[a_.lower()] = (rt, b_)
             trace = schemas.creation_trace(prog, fmap[en])
+            executed = [e.stmt for e in trace] + _helper_statements(prog, cg, eff, fmap[en], trace)
             for col, (rt, rc) in sorted(fks.items()):
                 for (k, loc) in sorted(consts.get(col, ())):
                     rows = []
-                    for e in trace:
-                        st = e.stmt
+                    for st in executed:
                         if st.kind == 'insert' and (st.table or '').lower() == rt.lower() and st.rows:
                             names = [c.lower() for c in st.columns] if st.columns else None
                             for row in st.rows:
